@@ -84,13 +84,16 @@ def expect(pre, op):
                     return {ACCEPT}
                 return {('conn_error', PE)}
             return {('conn_error', PE)}
+        # a 1xx block carrying END_STREAM is malformed whatever the state: the malformed-
+        # message PROTOCOL_ERROR is accepted next to the state-based error
+        malformed = {('conn_error', PE)} if (kind == 'info' and end) else set()
         if v.st == HCR:
-            return {('stream_error', SC)}
+            return {('stream_error', SC)} | malformed
         if v.st == CLOSED:
             if _by_rst(v):
-                return {('stream_error', SC)}
+                return {('stream_error', SC)} | malformed
             if v.closed_by in ('send_es', 'recv_es'):
-                return {('conn_error', SC)}
+                return {('conn_error', SC)} | malformed
             return {('conn_error', PE)}              # implicitly closed / never opened
     if t == 'DATA':
         _t, sid, end = op
